@@ -487,8 +487,7 @@ func (p *untypedParamBinder) setSliceFieldValue(target reflect.Value, defaultVal
 		return nil
 	}
 	if sz == 0 {
-		target.Set(defVal)
-		return nil
+		return p.setSliceDefault(target, defVal)
 	}
 
 	value := reflect.MakeSlice(reflect.SliceOf(target.Type().Elem()), sz, sz)
@@ -499,6 +498,28 @@ func (p *untypedParamBinder) setSliceFieldValue(target reflect.Value, defaultVal
 		}
 	}
 
+	target.Set(value)
+
+	return nil
+}
+
+// setSliceDefault sets a slice parameter to its default. A default declared in the spec is a generic
+// slice of JSON values: its items are converted to the item type of the target.
+func (p *untypedParamBinder) setSliceDefault(target reflect.Value, defVal reflect.Value) error {
+	if defVal.Type().AssignableTo(target.Type()) {
+		target.Set(defVal)
+		return nil
+	}
+	if defVal.Kind() != reflect.Slice {
+		return errors.InvalidType(p.Name, p.parameter.In, typeArray, defVal.Interface())
+	}
+
+	value := reflect.MakeSlice(target.Type(), defVal.Len(), defVal.Len())
+	for i := 0; i < defVal.Len(); i++ {
+		if err := p.setFieldValue(value.Index(i), defVal.Index(i).Interface(), "", true); err != nil {
+			return err
+		}
+	}
 	target.Set(value)
 
 	return nil
